@@ -31,6 +31,28 @@ TRIG_RULE = ("types I9F23, I9F55, I16F48, I32F32, I41F23, I9F119, I40F88, I64F64
              "to 130 pi/2; thorough: every I9F23 angle in the range (3.36e9 for sin and cos, 1.68e9 for tan); ")
 
 PROPS = {
+    "C11": {
+        "title": "results do not depend on the build profile (debug assertions / overflow checks)",
+        "stages": [
+            {"driver": "arith", "digest_compare": True, "returned_pass": True},
+            {"driver": "cross", "digest_compare": True, "returned_pass": True},
+            {"driver": "prim", "digest_compare": True, "returned_pass": True},
+            {"driver": "text", "digest_compare": True},
+            {"driver": "bytes", "digest_compare": True},
+            {"driver": "wrap", "digest_compare": True},
+            {"driver": "trans", "digest_compare": True},
+            {"driver": "crossx", "digest_compare": True, "returned_pass": True, "tiers": ["thorough"]},
+            {"driver": "primx", "digest_compare": True, "returned_pass": True, "tiers": ["thorough"]},
+        ],
+        "rule": ("differential exploration: the union of the corpora of all other checks (same-type arithmetic of all 506 layouts, cross-type and primitive conversions and "
+                 "comparisons, parsing and formatting, byte views, Wrapping, transcendental functions) is executed by the same engines built with and without debug "
+                 "assertions + overflow checks. For every case in which the documentation permits no profile-dependent panic (decided by the reference model, hence "
+                 "identically in both builds) the (input, outcome) stream is digested per block (layout x operation) and the digests must agree; a differing block is "
+                 "dumped in both builds and the first differing case reported. For the permitted cases (operation without overflow handling whose exact result does not "
+                 "fit, known div_euclid finding) every case in which the checking build nevertheless returned is re-executed in the non-checking build and must "
+                 "return the identical value. A state is one (operation, operands) case, a transition one call in one build"),
+        "assumptions": ["a panic of the checking build in a permitted case is not judged; equality of values in strict cases is judged by digest (64-bit SipHash per block)"],
+    },
     "C12": {
         "title": "Result-returning math functions are total: Ok or Err, never a panic",
         "stages": [{"driver": "trans"}],
